@@ -62,6 +62,9 @@ Definition incl_kind (p : path) : ikind :=
   else if ends_with s ".nml.h5" then IKH5
   else IKBad.
 
+Definition kind_bad (k : ikind) : bool := match k with IKBad => true | _ => false end.
+Definition kind_h5 (k : ikind) : bool := match k with IKH5 => true | _ => false end.
+
 (* the extension test for the file handed to _read_neuroml2 itself *)
 Definition entry_is_h5 (p : path) : bool :=
   let s := basename p in ends_with s ".h5" || ends_with s ".hdf5".
@@ -187,20 +190,11 @@ Section Reader.
     | h :: rest =>
       let loc := resolve fs cwd base h in
       if mem_path loc al then incl_loop rec base rest d al
-      else match incl_kind loc with
-           | IKXml =>
-             match rec false loc (al ++ [loc])%list with
-             | Done (sub, al') => incl_loop rec base rest (add_all (d_comps sub) d) al'
-             | Err e => Err e
-             | OutOfFuel => OutOfFuel
-             end
-           | IKH5 =>
-             match rec true loc (al ++ [loc])%list with
-             | Done (sub, al') => incl_loop rec base rest (add_all (d_comps sub) d) al'
-             | Err e => Err e
-             | OutOfFuel => OutOfFuel
-             end
-           | IKBad => Err EBadExt
+      else if kind_bad (incl_kind loc) then Err EBadExt
+      else match rec (kind_h5 (incl_kind loc)) loc (al ++ [loc])%list with
+           | Done (sub, al') => incl_loop rec base rest (add_all (d_comps sub) d) al'
+           | Err e => Err e
+           | OutOfFuel => OutOfFuel
            end
     end.
 
@@ -280,22 +274,12 @@ Section Reader.
     | h :: rest =>
       let loc := resolve fs cwd base h in
       if mem_path loc (cur g s) then incl_loop_old rec g base rest d s
-      else match incl_kind loc with
-           | IKXml =>
-             match rec false g loc s with
-             | Done (sub, s') =>
-               incl_loop_old rec g base rest (add_all (d_comps sub) d) (app_cur g s' loc)
-             | Err e => Err e
-             | OutOfFuel => OutOfFuel
-             end
-           | IKH5 =>
-             match rec true g loc s with
-             | Done (sub, s') =>
-               incl_loop_old rec g base rest (add_all (d_comps sub) d) (app_cur g s' loc)
-             | Err e => Err e
-             | OutOfFuel => OutOfFuel
-             end
-           | IKBad => Err EBadExt
+      else if kind_bad (incl_kind loc) then Err EBadExt
+      else match rec (kind_h5 (incl_kind loc)) g loc s with
+           | Done (sub, s') =>
+             incl_loop_old rec g base rest (add_all (d_comps sub) d) (app_cur g s' loc)
+           | Err e => Err e
+           | OutOfFuel => OutOfFuel
            end
     end.
 
